@@ -405,6 +405,23 @@ theorem resolve_drives_flushed_locks (ms : Mvcc.Store) (hs : Mvcc.SInv ms) (T C 
   rw [he] at hl
   exact rk_unlocks T C k _ l hl hT
 
+/-- the same for whole op sequences of the buffer with the callback: every key the callback has sent to the store is
+    released by the range task run on the transaction's own [pipelinedStart, pipelinedEnd), for every region layout -/
+theorem machine_resolve_drives_flushed_locks (cfg : Cfg) (ops : List Op) (hok : ∀ op ∈ ops, op.keyOk = true)
+    (ms : Mvcc.Store) (hs : Mvcc.SInv ms) (T C : Nat) (hC : C = 0 ∨ T < C)
+    (splits : List Bytes) (hsp : ∀ h ∈ splits, h ≠ []) (k : Bytes) (hk : k ∈ (run (init cfg) ops).lockKeys) :
+    ¬ lockedBy (resolveRegionsStore ms
+        (runOnRange splits (run (init cfg) ops).pStart (run (init cfg) ops).pEnd) T C) T k := by
+  have hcov := machine_regions_cover_flushed cfg ops hok splits k hk
+  have hne : ∀ r ∈ runOnRange splits (run (init cfg) ops).pStart (run (init cfg) ops).pEnd, ∀ h, r.2 = some h → h ≠ [] :=
+    fun r hr h hh => hsp h (runOnRange_ends_in_splits splits _ _ r hr h hh)
+  have he := getEntry_resolveRegions T C hC k _ ms hs hne
+  rw [hcov] at he
+  simp only [if_true] at he
+  rintro ⟨l, hl, hT⟩
+  rw [he] at hl
+  exact rk_unlocks T C k _ l hl hT
+
 /-- the single outcome: a flushed key that `T` still locks (with the put / delete / lock it flushed) ends with `T`'s
     commit record at `C` carrying the flushed value when the primary was committed, with `T`'s rollback marker when it
     was rolled back -/
